@@ -245,6 +245,22 @@ def worker_main():
             if bytes(w.buf) != len(exp).to_bytes(3, 'big') + exp:
                 why.setdefault('C02.incremental_form_identical', 'bytes written by TransportTCP.send_frame differ: %s... vs %s...' % (
                     bytes(w.buf)[:20].hex(), (len(exp).to_bytes(3, 'big') + exp)[:20].hex()))
+            if v['ft'] == 'PAYLOAD' and (v['ml'] or v['dl']) and v.get('N'):
+                # "a payload frame with content always carries the next flag": also when the frame OBJECT was built without it
+                # (what the fragmenter does for continuation fragments) - in the one-shot and in both incremental forms
+                def unflagged():
+                    g = build(v, seed)
+                    g.flags_next = False
+                    return g
+                w2 = W()
+                c2 = TransportTCP(None, w2).send_frame(unflagged())
+                try:
+                    c2.send(None)
+                except StopIteration:
+                    pass
+                if bytes(unflagged().serialize()) != exp or bytes(fr.serialize_with_frame_size_header(unflagged())) != len(exp).to_bytes(3, 'big') + exp \
+                        or bytes(w2.buf) != len(exp).to_bytes(3, 'big') + exp:
+                    why['C02.payload_with_content_has_next'] = 'a payload frame object with content but flags_next unset is encoded without the next flag'
         except Exception as ex:
             why['C02.encode_matches_layout'] = 'building/serializing raised %s: %s' % (type(ex).__name__, ex)
         try:
